@@ -137,7 +137,7 @@ Proof.
       specialize (H eq_refl eq_refl w eq_refl t r Hin).
       rewrite !orb_true_iff, !andb_true_iff, !negb_true_iff.
       destruct (t_damaged t) eqn:Ed; [auto|].
-      destruct (covers_b (t_keys t) w) eqn:Ec; [|auto].
+      destruct (covers_b (t_all t) w) eqn:Ec; [|auto].
       destruct (t_wr t) eqn:Ewr, (sr x) eqn:Esr; auto;
       destruct (t_wa t) eqn:Ewa, (sa x) eqn:Esa; auto;
       right; apply recovered_b_iff; apply H; auto; try (now apply covers_b_iff); congruence.
@@ -505,7 +505,7 @@ Section Main.
     intros w Hw t r Hin s l Hr. rewrite obs_res in Hw.
     unfold o, model_obs in Hin. cbn in Hin. rewrite Hidp, Hw in Hin.
     apply in_map_iff in Hin. destruct Hin as [t' [Ht Hin]]. inversion Ht; subst t' r.
-    unfold run_trial, sp_named in H1. apply sp_parse_sound in H1. exact H1.
+    unfold run_trial, sp_receive in H1. apply sp_parse_sound in H1. exact H1.
   Qed.
 End Main.
 
@@ -611,7 +611,8 @@ Section Recover.
     rewrite <- (b_sr x e B) in Hwr. rewrite <- (b_sa x e B) in Hwa.
     unfold attr_atoms. rewrite <- (b_main x e B), <- (b_adv x e B), <- (b_subj x e B).
     rewrite Hw in S.
-    apply (recover_core string opens_named e (t_keys t) (t_wr t) (t_wa t) w S Hany Hm Ha Hvalid Hwr Hwa).
+    unfold sp_receive. fold (t_all t).
+    apply (recover_core string opens_named e (t_all t) (t_wr t) (t_wa t) w S Hany Hm Ha Hvalid Hwr Hwa).
     intros c Hcin. rewrite try_keys_named. apply opens_with_iff. now apply Hc.
   Qed.
 End Recover.
@@ -764,6 +765,25 @@ Section IdealTheorems.
     destruct (main_encrypted x w Hg Hea Hav Hw) as [c [a [Ht _]]].
     destruct w as [sg tp]. cbn in Ht. subst tp. apply sp_parse_damaged_top.
   Qed.
+  (* the same with the key list as SecurityContext.decrypt builds it: per-request keys, then configured keys *)
+  Theorem recover_ideal_keys : forall x w hit req conf wr wa,
+    guard x -> in_force x -> valid_advice x -> idp x = Wire w ->
+    (forall c, In c (certs_used w) -> exists k, In k (key_list hit req conf) /\ c = cert_of k) ->
+    (wr = true -> sr x = true) -> (wa = true -> sa x = true) ->
+    exists l, sp_receive key can_open hit req conf wr wa w = Some (subj x, l) /\ same_atoms l (attr_atoms x).
+  Proof. intros x w hit req conf wr wa. unfold sp_receive. apply recover_ideal. Qed.
+
+  Theorem wrongkey_ideal_keys : forall x w hit req conf wr wa,
+    guard x -> ea x = true -> avail (rcpt_main x) -> idp x = Wire w ->
+    (forall k c, In k (key_list hit req conf) -> In c (rcpt_main x) -> cert_of k <> c) ->
+    sp_receive key can_open hit req conf wr wa w = None.
+  Proof. intros x w hit req conf wr wa. unfold sp_receive. apply wrongkey_ideal. Qed.
+
+  (* a configured key that matches is enough whatever per-request keys are also supplied (and vice versa) *)
+  Lemma key_list_conf hit (req conf : list key) k : In k conf -> In k (key_list hit req conf).
+  Proof. unfold key_list. destruct hit; auto. intros H. apply in_or_app. now right. Qed.
+  Lemma key_list_req (req conf : list key) k : In k req -> In k (key_list true req conf).
+  Proof. intros H. apply in_or_app. now left. Qed.
 End IdealTheorems.
 
 (* whatever any recipient obtains from any (possibly damaged, possibly hostile) wire term is derivable from it
@@ -794,7 +814,7 @@ Qed.
 
 (* class 3 is real: the faithful model violates the property there; classes 1 and 2 were real for the code
    before 316cbbe5 / a5d8e540 (idp_v0) and are gone now: the same calls satisfy the property *)
-Definition ts0 : list trial := [mktrial ["sp"] false false false].
+Definition ts0 : list trial := [mktrial ["sp"] false false false [] false].
 Definition x_class1 : input :=   (* PEFIM, sign_assertion, Response unsigned, no assertion encryption *)
   mkinput Server false true false false true true [(UEnc, Good "sp")] None None "subject" ["value"] [].
 Definition x_class2 : input :=   (* encrypt_assertion, not self-contained, assertion unsigned *)
